@@ -244,6 +244,13 @@ func main() {
 				}
 				registerOne(s, r.Bool(), cid, size)
 			}
+			// re-register an earlier proprietary (direction, CID) with a different positive size: the last one must win
+			for _, h := range history {
+				if h.cid >= 128 && h.size > 0 {
+					registerOne(s, h.up, h.cid, h.size%20+1)
+					break
+				}
+			}
 		}
 		// history case: results of every call + probes
 		var oks []string
